@@ -633,3 +633,9 @@ PROPS["C14"] = {'claimed': False,
  'design_ref': 'DESIGN.md section 4, C14',
  'assumptions': ['histories allowed by the FdlApplication contract (C15)',
                  'bytes 0..255, addresses 0..125, max_retry_limit 1..15 (ParametersBuilder bounds)']}
+
+# bus-level layer (N real stations on a harness bus; monitors and their soundness theorems in Properties/BusLevel.v)
+for _pid in ("C01", "C02", "C06", "C13"):
+    PROPS[_pid]["domains"] = list(PROPS[_pid]["domains"]) + ["bus"]
+    PROPS[_pid]["coq_extra"] = ["Properties/BusLevel.v"]
+    PROPS[_pid]["nontrivial"] = list(PROPS[_pid]["nontrivial"]) + ["bus:"]
